@@ -421,10 +421,119 @@ func c19GraphTieD(c *Ctx, plain, compiled *syntax.Ast, g syntax.CallGraphNode, e
 	}
 	for i := range real {
 		if real[i] != model[i] {
+			// resolveDisableExp merges a control with an inherited one only when both are the SAME RefExp
+			// object (`e == r`): that is the case when the value reached the call unchanged through pipeline
+			// inputs (`self.flag` bound from `self.flag`), and not when the same source expression was resolved
+			// twice.  The model has no object identity (deepGraphD never merges).  Counted fallback: the two
+			// graphs are compared with duplicate controls merged and the disable wrappers of the outputs removed.
+			cr, cm := c19CanonDisabled(real), c19CanonDisabled(model)
+			if cr != nil && cm != nil && strings.Join(cr, "\n") == strings.Join(cm, "\n") {
+				return "equal-with-disabled-modulo-control-object-identity", real, model
+			}
 			return fmt.Sprintf("(with disabled) node %d differs:\n  real : %s\n  model: %s", i, real[i], model[i]), real, model
 		}
 	}
 	return "equal-with-disabled", real, model
+}
+
+// c19SX: an s-expression of the graph printer (atom or list).
+type c19SX struct {
+	atom string
+	list []*c19SX
+	leaf bool
+}
+
+func c19ParseSX(toks []string, i int) (*c19SX, int) {
+	if i >= len(toks) {
+		return nil, -1
+	}
+	if toks[i] != "(" {
+		if toks[i] == ")" {
+			return nil, -1
+		}
+		return &c19SX{atom: toks[i], leaf: true}, i + 1
+	}
+	n := &c19SX{}
+	i++
+	for i < len(toks) && toks[i] != ")" {
+		c, j := c19ParseSX(toks, i)
+		if j < 0 {
+			return nil, -1
+		}
+		n.list = append(n.list, c)
+		i = j
+	}
+	if i >= len(toks) {
+		return nil, -1
+	}
+	return n, i + 1
+}
+
+func (x *c19SX) String() string {
+	if x.leaf {
+		return x.atom
+	}
+	parts := []string{"("}
+	for _, c := range x.list {
+		parts = append(parts, c.String())
+	}
+	return strings.Join(append(parts, ")"), " ")
+}
+
+func (x *c19SX) isD() bool {
+	return !x.leaf && len(x.list) == 3 && x.list[0].leaf && x.list[0].atom == "D"
+}
+
+// inside the scope of a wrapper `( D c ... )` every further wrapper on the same control is dropped
+func (x *c19SX) collapseD(active map[string]bool) *c19SX {
+	if x.leaf {
+		return x
+	}
+	if x.isD() {
+		k := x.list[1].String()
+		if active[k] {
+			return x.list[2].collapseD(active)
+		}
+		active[k] = true
+		x.list[2] = x.list[2].collapseD(active)
+		delete(active, k)
+		return x
+	}
+	for i, c := range x.list {
+		x.list[i] = c.collapseD(active)
+	}
+	return x
+}
+
+// c19CanonDisabled: the node lines `( N fqid callable kind ( inputs ) OUT RET ( DIS ) )` with the disable list
+// de-duplicated (first occurrences kept), wrappers nested (at any depth) inside a wrapper on the same control
+// dropped, and the `( D control inner )` wrappers at the top of OUT removed.  nil when a line does
+// not have that shape.
+func c19CanonDisabled(lines []string) []string {
+	var out []string
+	for _, ln := range lines {
+		toks := strings.Fields(ln)
+		x, j := c19ParseSX(toks, 0)
+		if x == nil || j != len(toks) || x.leaf || len(x.list) != 8 || x.list[7].leaf {
+			return nil
+		}
+		x = x.collapseD(map[string]bool{})
+		for x.list[5].isD() {
+			x.list[5] = x.list[5].list[2]
+		}
+		seen := map[string]bool{}
+		var dis []*c19SX
+		for _, e := range x.list[7].list {
+			if k := e.String(); !seen[k] {
+				seen[k] = true
+				dis = append(dis, e)
+			}
+		}
+		x.list[7].list = dis
+		out = append(out, x.String())
+	}
+	sort.Strings(out)
+	return out
 }
 
 // c19HasMapCall: a map call / split anywhere in the program.
@@ -549,6 +658,10 @@ func c19GraphTieCase(c *Ctx, cs *c19Case, plain *syntax.Ast, base *c19Compiled) 
 	case verdict == "equal-with-disabled":
 		r.hist("graph-tie:equal(with-disabled-modifiers)")
 		r.count("graphd\x00"+cs.Src, len(real) > 1)
+	case verdict == "equal-with-disabled-modulo-control-object-identity":
+		// counted skip of the strict comparison: the code merges equal controls by object identity (see c19GraphTieD)
+		r.hist("graph-tie:equal-modulo-control-object-identity(with-disabled-modifiers; strict comparison skipped)")
+		r.count("graphd-modulo\x00"+cs.Src, len(real) > 1)
 	case verdict == "":
 		r.hist("graph-tie:equal")
 		r.count("graph\x00"+cs.Src, len(real) > 1)
